@@ -110,6 +110,17 @@ check("C06", "model_checking",
       "Limit: results of calling reachable functions with arbitrary arguments are not enumerable; only the listed calls are edges. Forbidden set built host-side from the real runtime.",
       "DESIGN.md §3 C06")
 
+check("C07", "exploration",
+      "bounded exhaustive enumeration of (non-terminating body x wrapper x position) Lua programs x follow-up invocation histories, each executed on the real sandbox under a process-level watchdog",
+      "12 non-terminating bodies x 8 wrappers x 2 positions (thorough: all 192 programs, each with two follow-up histories over {benign, raising, timing-out}; quick: 26 selected programs) are invoked with timeout=1; expand() must return within limit + 2.5 s with the 'Lua timeout error' element, the expansion path restored, and every follow-up invocation on the same context must give what a fresh context gives.",
+      "Wall-clock based (whole-second os.time() in the hook); the pool watchdog (12 s) turns a hang into a result.",
+      "DESIGN.md §3 C07")
+check("C09", "model_checking",
+      "explicit enumeration of operation histories on one context (rebuilt from scratch per history, each in a pristine forked process) with a differential oracle against the same event alone on a fresh context",
+      "Every history of <= 2 (thorough 3) events over a 35-event alphabet (21 corpus pages incl. one per Lua state channel, by expand/parse/parse(expand_all); creating another context with each of 5 option sets; start_section) is executed on a real context over one committed database; the last page event's tree/expansion/messages/expansion path must equal those of the event alone; Lua state channels also have absolute expectations.",
+      "Trusted: the observation function; fork() gives each history a pristine copy of the library's process-global state.",
+      "DESIGN.md §3 C09")
+
 NOT_APPLICABLE = {}
 for i in range(1, 21):
     pid = "C%02d" % i
